@@ -5,6 +5,36 @@ ROOT = os.path.dirname(os.path.dirname(os.path.abspath(__file__)))
 ALL = ["C%02d" % i for i in range(1, 21)]
 
 CHECKS = {
+ "C08": dict(
+    category="exploration",
+    text="Spec-directed exploration under AddressSanitizer and -fsanitize=bounds: inputs are corpus archives with substitutions "
+         "confined to header bytes (located by an independent container walker), truncations and bit flips; structurally "
+         "generated archives with inconsistent/extreme length fields (level-3 lengths and extended sizes, level-1 chains, 4 GiB "
+         "members, endless decoders); mutated generated headers of all levels (the generator of C05/C12); random bytes behind a "
+         "valid signature with plausible level/length/checksum bytes; bit-flipped generated multi-member archives. Each input "
+         "is driven through the library with disciplined random call sequences (next/read/check/extract, three directory "
+         "policies, five stream kinds) and through the tool in modes l, lv, v, vv, t, p, xn and x. Any sanitizer report, signal, "
+         "abnormal exit status or exhausted step budget is a violation; a sample of the library executions is validated against "
+         "Reader.tla using the members of a reference run.",
+    design_ref="DESIGN.md section 5, C08",
+    note="Not a proof: memory safety is observed by sanitizers on the executions run. The specifications decide what is run and "
+         "what each call must return; MSan is not used.",
+    technique="spec-directed input generation (Header/Reader/InputStream TLA+ specs) with ASan+bounds as the observer of invalid "
+              "accesses; sample trace validation against the Reader spec"),
+ "C09": dict(
+    category="exploration",
+    text="For all 14 method names: valid streams from independent encoders under every table strategy (optimal, flat, single-symbol, "
+         "maximum-length, full alphabet), corpus streams, bit-flipped / truncated / random-headed variants of them, constant and "
+         "random bytes, and a sweep over first bytes of the table header; each with declared lengths from {0, 1, 100, 5000, 70000, "
+         "2^32-1} and several read schedules (one large read, 1-byte reads, primes with zero-length reads, monitor attached), "
+         "under AddressSanitizer and -fsanitize=bounds, with output buffers of exactly the requested size. A crash, sanitizer "
+         "report or signal is a violation; a sample is validated against DecoderApi.tla (n <= k, buffer bounds, faithful "
+         "length/CRC, inner decoder never called after it returned 0).",
+    design_ref="DESIGN.md section 5, C09",
+    note="Not a proof: memory safety is observed by sanitizers on the executions run. Found and fixed: -pm2- copy_decode overrun "
+         "(known_findings.json).",
+    technique="spec-directed stream generation (format classes from the encoders / codec specs) with ASan+bounds as the observer; "
+              "sample trace validation against the DecoderApi TLA+ spec"),
  "C06": dict(
     category="model_checking",
     text="Generated directory-first trees (nested directories incl. read-only ones, files of random content in 14 methods built by "
